@@ -311,6 +311,7 @@ var abstractTypes = map[string][]struct {
 	"sync.Pool":       {},
 	"os.File":         {{"path", SString}},
 	"bufio.Reader":    {},
+	"bufio.Writer":    {{"path", SString}, {"buffered", SString}},
 	"bufio.Scanner":   {},
 	"regexp.Regexp":   {{"pattern", SString}},
 	"time.Time":       {},
